@@ -499,3 +499,27 @@ _RULE_ADD5['C04'] = _RULE_ADD5['C06'] = _RULE_ADD5['C05']
 _RULE_ADD5['C11'] = _RULE_ADD5['C12'] = _RULE_ADD5['C07']
 for _p, _t in _RULE_ADD5.items():
     PROPS[_p]['rule'] = PROPS[_p]['rule'] + _t
+
+# features added after the twelfth round
+for _p, _m in {'C03': {'chains_read_back_through_every_header_view': 10000}, 'C07': {'intent_matched:arp.ProcessPacket(probe)': 150},
+               'C09': {'sessions_closed_by_six_goroutines_at_once': 600}, 'C11': {'renewals_sent_from_another_address_than_ciaddr': 100, 'messages_with_a_host_name_option': 20000},
+               'C12': {'renewals_sent_from_another_address_than_ciaddr': 100, 'messages_with_a_host_name_option': 20000}, 'C13': {'router_address_claimed_by_another_station': 30},
+               'C15': {'ndp_messages_of_256_bytes_and_more': 200}, 'C18': {'messages_with_a_host_name_option': 5000}}.items():
+    PROPS[_p]['min_obs'] = dict(PROPS[_p]['min_obs'])
+    PROPS[_p]['min_obs']['quick'] = dict(PROPS[_p]['min_obs'].get('quick', {}), **_m)
+_RULE_ADD6 = {
+    'C03': ' Every chain is also read back through the Ethernet convenience views (Src, Dst, SrcIP, DstIP) and every IPv4 / IPv6 header accessor.',
+    'C07': ' The ARP handler\'s answer to an address-conflict probe by a station that holds our DHCP offer is judged field by field (sender address = the probed address, unicast to the prober; none for the offered address, without an offer, outside the LAN). One advertisement in four carries 4..12 prefixes (256 bytes and more).',
+    'C08': ' PTR records come with owner names of every shape: address literals of both families inside one label, with and without the arpa suffix, too few / many / large parts, ip6.arpa nibbles.',
+    'C09': ' API goroutines keep the Router values FindRouter returned and render every part of them later, without a lock (they are documented as copies). After the stress run 150 fresh sessions are closed by six goroutines each, released together from a spin barrier (Close storm): a panic or a Close that does not return is reported.',
+    'C11': ' A renewal that names another address than the client\'s may still come from the client\'s real address (IP source differs from ciaddr). Clients send host names (option 12) with characters that mean something to formatters, YAML and terminals.',
+    'C13': ' Op router-claim: another station announces the router\'s address as its own; forged frames and the corrective packet must still carry the router\'s real MAC.',
+    'C14': ' One advertisement in five carries a target link-layer address option (meaningless in an RA: to be ignored).',
+    'C15': ' One send in eight is a neighbour discovery message (RS, NA, NS, RA with 1..14 prefixes and 0..4 DNS servers, up to about 600 bytes) verified against its pseudo header.',
+    'C18': ' Host names (option 12) include percent signs, colons, quotes, newlines, NUL and invalid UTF-8: the lease file must round-trip them.',
+    'C20': ' One LLDPDU in three has TLVs shorter than their type prescribes (capabilities of one byte, identifiers without subtype).',
+}
+_RULE_ADD6['C12'] = _RULE_ADD6['C11']
+_RULE_ADD6['C01'] = _RULE_ADD6['C20'] + _RULE_ADD6['C08']
+for _p, _t in _RULE_ADD6.items():
+    PROPS[_p]['rule'] = PROPS[_p]['rule'] + _t
